@@ -62,3 +62,7 @@ check("C14", "model-based generation of operation histories over shared pipeline
       "Histories of add / add_none / sum / resolve(permutation) / resolve_again / convert / apply over 1-5 pipelines with priority ties are interpreted against a model that only concatenates spec lists; every conversion output (field suffix order backend-user-format, later vars win, last state, post-processing order after format finalisation, finalizers in order) is compared with a string built from the model. All 3!/4!/5! permutations of the resolver argument list are enumerated.",
       "Expected outputs built by string construction; fresh backend class per conversion.",
       "DESIGN.md section 3, C14")
+check("C15", "model-based generation of operation histories over shared backend / pipeline objects followed by a probe conversion; differential oracle against fresh objects with cleared caches (before and after the history)",
+      "Histories of creating further backend instances (shared or own pipeline), init_processing_pipeline, loading, convert_rule and convert (including conversions failing in the pipeline, in rendering, inside a negated not-equals leaf, on a missing detection) are followed by converting a probe rule whose output prints queries, the rule's fields list and the pipeline state; the result must equal that of a new backend class with a new pipeline and cleared parse / type-hint caches.",
+      "String comparison; random added-condition names normalised.",
+      "DESIGN.md section 3, C15")
